@@ -220,7 +220,8 @@ class C11(PropCheck):
                'harness shim paramz.Param.__float__ for 1-element parameters (numpy 2), as in harness/c10.py; no repo change',
                'the scripted client stands for any ClientBase that answers is_ready arbitrarily and computes submitted nets faithfully',
                'finite-difference clauses (LCBSC, MaxVar gradients): central differences h=1e-5, tolerance 2e-4 relative + 1e-6 absolute '
-               '(histories: in Coq, BoCase.fd_close, relative to |a|+|b|; observed worst error/tolerance ratio 0.03 over 12000 comparisons)',
+               '(histories: in Coq, BoCase.fd_match: per coordinate, for h=1e-5 or h=1e-6, |g-fd| <= 2e-4(|g|+|fd|) + 1e-6 + 2e-5(|grad_mean| + '
+               '|1/2 grad_var sqrt(beta/var)|) + 1e-8 sqrt(beta/var); observed worst error/tolerance ratio 0.011 over 50000 comparisons)',
                'histories: the surrogate\'s "current" mean/variance/gradients are read directly from GPyRegression.predict / predictive_gradients '
                '(GPy itself is an oracle); "fresh object" = a new LCBSC / MaxVar (same eps) constructed at the moment of the query')
 
